@@ -48,6 +48,8 @@ var c11Scens = []scen{
 	{"suites", nil, [][]string{{"suite OCRA-1:HOTP-SHA256-8:C-QA10-PSHA256-S-T1"}, {"suite OCRA-1:HOTP-SHA256-7:QN10-T5M"}, {"list-suites"}}, [2]int{1, 2}, false},
 	{"suite-cache churn", churnWarm(), [][]string{{"suite-parse-40", "suite-parse-39", "suite-parse-37", "suite-parse-33", "suite-parse-25", "suite-parse-9"}, {"suite-parse-41", "suite-parse-42", "suite-parse-43"}}, [2]int{1, 2}, false},
 	{"url||url", []string{"url-totp"}, [][]string{{"url-totp"}, {"url-hotp"}}, [2]int{1, 2}, false},
+	{"url-hotp||url-hotp", nil, [][]string{{"url-hotp"}, {"url-hotp-2"}}, [2]int{1, 2}, false},
+	{"url-totp||url-totp||url-hotp", []string{"url-hotp"}, [][]string{{"url-totp"}, {"url-totp-2"}, {"url-hotp-2"}}, [2]int{1, 2}, false},
 	{"decode||decode||random", nil, [][]string{{"decode-secret-0", "decode-secret-bad"}, {"decode-secret-1", "decode-secret-2"}, {"random-secret-0"}}, [2]int{1, 2}, false},
 	{"helpers||helpers||random", nil, [][]string{{"helpers-a"}, {"helpers-b"}, {"random-secret-2", "random-secret-0"}}, [2]int{1, 2}, false},
 	{"ocra 1||2", []string{"ocra-short"}, [][]string{{"ocra-short"}, {"ocra-long", "ocra-validate-hit"}}, [2]int{1, 2}, false},
@@ -479,7 +481,7 @@ func c11(r *ev.Run) {
 		for k := 0; k < np && k < 200000; k++ {
 			r.Distinct(ev.H(fmt.Sprint(n, k)))
 		}
-		if np < 2 && m["max_points"].(int) > 0 && (strings.Contains(n, "hotp") || strings.Contains(n, "ocra")) {
+		if np < 2 && m["max_points"].(int) > 0 && !strings.HasPrefix(n, "url") && (strings.Contains(n, "hotp") || strings.Contains(n, "ocra")) {
 			r.NotExhaustive(fmt.Sprintf("scenario %q: only %d pool-handover pattern observed (threads did not collide)", n, np))
 		}
 	}
